@@ -7,6 +7,8 @@ PROP = {
              # const items of non-Copy ConstDefault element types (one with a destructor), each length in its own
              # separately compiled program: names the lengths whose storage shape loses the constant default
              {"tag": "c19p", "bin": "c19p", "no_default_features": True},
+             # caller program compiled separately: zeroize() from code generic over T: Zeroize, elements that borrow
+             {"tag": "c19call", "bin": "gcall", "no_default_features": True, "args": ["--prop", "C19"], "model": False},
              # statics of 2^19 / 2^20 elements from const_default() and from DEFAULT (direct oracles: four places, no
              # loop): the constant default stays within the const evaluator's step budget for every length
              {"tag": "c19big", "bin": "c19p", "no_default_features": True, "args": ["--big"], "model": False, "timeout": 600}],
